@@ -427,6 +427,37 @@ example : setSliceX [0, 1, 2, 3, 4] ⟨none, none, some 2⟩ [7, 8] = none := by
 example : getSliceX [0, 1, 2] ⟨none, none, some 0⟩ = none := by decide
 example : setSliceX [0, 1, 2, 3, 4] ⟨some 3, some 1, none⟩ [7] = some [0, 1, 2, 7, 3, 4] := by decide
 
+/-! ### the derived methods by their signals
+
+`extend`, `+=` and `clear` are loops over primitives in the model (as in `MutableSequence`); here is what they signal,
+stated declaratively — which signals, with which `old` / `new` / `index`, and the resulting list — without the loops and
+without the state machine (`specAppends`, `specClears` in `Proofs/SignalsSlices.lean` are closed forms). -/
+
+/-- **`extend(vs)`**: the list becomes `d ++ vs`, and exactly one `append` per item is signalled, in order, the `k`-th
+    with `new` = the item and `index` = `len(d) + k` (the position at which it arrives); nothing else. -/
+theorem C16_extend_signals (n : Nat) (d vs : List Int) :
+    listOp n d (.lextend n vs) = .ok (d ++ vs, specAppends n d.length vs) := by
+  have h := mExtend_acc n vs d []
+  simp only [listOp, mExtend, h, List.nil_append]
+
+/-- **`lst += vs`**: the signals of `extend(vs)`, then one `change` whose `old` and `new` are both the extended list
+    (the descriptor's `__set__` is handed the list object itself). -/
+theorem C16_iadd_signals (n : Nat) (d vs : List Int) :
+    listOp n d (.liadd n vs) =
+      .ok (d ++ vs, specAppends n d.length vs ++ [⟨n, .change, .list (d ++ vs), .list (d ++ vs), .none⟩]) := by
+  have h := mExtend_acc n vs d []
+  simp only [listOp, mExtend, h, List.nil_append]
+
+/-- **`clear()`**: the list becomes empty, and exactly one `remove` per item is signalled, from the last item to the
+    first, each with `old` = the item removed and `index` = -1 (it is `pop()` until the list is empty); nothing else. -/
+theorem C16_clear_signals (n : Nat) (d : List Int) :
+    listOp n d (.lclear n) = .ok ([], specClears n d) := by
+  simp only [listOp, mClear_spec]
+
+example : specAppends 1 2 [7, 8] = [⟨1, .append, .none, .int 7, .int 2⟩, ⟨1, .append, .none, .int 8, .int 3⟩] := by decide
+example : specClears 1 [4, 5, 6] = [⟨1, .remove, .int 6, .none, .int (-1)⟩, ⟨1, .remove, .int 5, .none, .int (-1)⟩,
+    ⟨1, .remove, .int 4, .none, .int (-1)⟩] := by decide
+
 /-! ### handlers that subscribe / unsubscribe / clear while they are being notified
 
 `runR progs s ops`: the same machine, but handler `h`, whenever it is called, makes the registry calls `progs h`
